@@ -63,6 +63,9 @@ class ShareMonitor:
         self.mask_bounds = [[] for _ in range(m)]      # (origin, requested bound, effective randbelow/PRF bound)
         self.prf_bounds = [[] for _ in range(m)]
         self.opened = [[] for _ in range(m)]           # (origin protocol, [int values])
+        # per party, in program order: ('rand', origin, [own shares]) for every _randoms result and
+        # ('open', origin, threshold, [own shares handed to Runtime.output]) -- prime fields only, else None entries
+        self.events = [[] for _ in range(m)]
         self.nkeys = [dict() for _ in range(m)]
         self.record_results = record_results
 
@@ -120,10 +123,36 @@ class ShareMonitor:
                                   'modulus': field.modulus if isinstance(field.modulus, int) else None})
             return res
 
+        def _ints(xs):
+            out = []
+            for e in xs:
+                v = getattr(e, 'share', e)
+                v = getattr(v, 'value', v)
+                out.append(int(v) if isinstance(v, int) else None)
+            return out
+
         def _randoms(rt, sftype, n, bound=None):
+            origin = sys._getframe(1).f_code.co_name
+            if origin == '_random':
+                origin = sys._getframe(2).f_code.co_name
             if bound is not None:
                 mon.mask_bounds[rt.pid].append((sys._getframe(1).f_code.co_name, bound))
-            return o_randoms(rt, sftype, n, bound)
+            res = o_randoms(rt, sftype, n, bound)
+            ev = ['rand', origin, None]
+            mon.events[rt.pid].append(ev)
+            if isinstance(res, asyncio.Future):
+                def done(f, ev=ev):
+                    try:
+                        ev[2] = _ints(f.result())
+                    except Exception:
+                        pass
+                res.add_done_callback(done)
+            else:
+                try:
+                    ev[2] = _ints(res)
+                except Exception:
+                    pass
+            return res
 
         def _np_randoms(rt, sftype, n, bound=None):
             if bound is not None:
@@ -136,6 +165,12 @@ class ShareMonitor:
 
         def output(rt, x, receivers=None, threshold=None, raw=False):
             origin = sys._getframe(1).f_code.co_name
+            try:
+                xs = x if isinstance(x, list) else [x]
+                if all(not hasattr(e, 'share') or not isinstance(e.share, asyncio.Future) for e in xs):
+                    mon.events[rt.pid].append(['open', origin, threshold, _ints(xs)])
+            except Exception:
+                pass
             fut = o_output(rt, x, receivers, threshold, raw)
             pid = rt.pid
 
